@@ -674,6 +674,15 @@ fn plan_mutants(c: &mut Ctx, parts: &Parts, bytes: &[u8], fields: &[Field]) -> V
                 }
             }
             Kind::Fixed | Kind::Branch => {
+                if f.kind == Kind::Branch {
+                    // every other branch id a v5/v6 encoding can name (bundle grammar depends on it)
+                    let cur = u32::from_le_bytes(bytes[f.off..f.end()].try_into().unwrap());
+                    for b in [BranchId::Canopy, BranchId::Nu5, BranchId::Nu6, BranchId::Nu6_1, BranchId::Nu6_2, BranchId::Nu6_3] {
+                        if u32::from(b) != cur {
+                            plan.push(Mutant { op: "branch-swap", field: Some(f.clone()), edit: Edit::Put(f.clone(), u32::from(b).to_le_bytes().to_vec()), must_reject: None });
+                        }
+                    }
+                }
                 for _ in 0..2 {
                     let v: u32 = match c.rng.gen_range(0..6) {
                         0 => 0,
@@ -1383,8 +1392,10 @@ fn main() {
         let (sel, branch) = pairs[(i + off) % pairs.len()];
         let mut shape = shapes[((i + off) / pairs.len()) % shapes.len()];
         // rare expensive shapes
-        if i % 400 == 399 {
-            shape = if (i / 400) % 2 == 0 { Shape::Boundary64k } else { Shape::BigScript };
+        if i == 20 || i % 400 == 399 {
+            shape = Shape::Boundary64k;
+        } else if i == 40 || i % 400 == 199 {
+            shape = Shape::BigScript;
         }
         let ver = txgen::pick_ver(&mut c.rng, sel);
         let _ = VerSel::V6;
